@@ -18,7 +18,7 @@ RULE = (
 )
 REQUIRED = ["regeneration_checked", "regenerated", "variants/identity", "variants/renumber", "variants/rewrite",
             "kind/its", "kind/rc", "dir/fwd", "dir/bwd", "strategy/all", "strategy/comp", "strategy/bt", "mode/explicit",
-            "mode/implicit", "multi_candidate_runs"]
+            "mode/implicit", "multi_candidate_runs", "bt_must_fall_back"]
 ASSUMPTIONS = [
     "precondition (decided from the input): balanced, fully mapped, hydrogens written consistently (explicit or implicit mode; 'mixed' excluded)",
     "centre templates are only required to regenerate centre-complete reactions (every atom whose label changes is an end atom of a changed bond)",
@@ -63,16 +63,34 @@ def attempt(ctx, x, rsmi, vkind, kind, d, s):
     a, b = rsmi.split(">>")
     sub = R.unmapped_canonical(a if d == "fwd" else b)
     wit = {"template_rid": x["rid"], "rsmi": rsmi, "variant": vkind, "kind": kind, "dir": d, "strategy": s, "substrate_rid": x["rid"]}
-    if s == "comp":
-        # documented guard of the component-aware strategy (strict_cc_count): it returns nothing when the host has
-        # more connected components than the pattern, e.g. a spectator ion next to a centre template.  Decided from the input.
+    if s in ("comp", "bt"):
+        # Preconditions decided from the input.  The component-aware strategy, by definition (C06), only returns
+        # embeddings that send different pattern components into different substrate molecules, and (documented
+        # strict_cc_count guard) returns nothing when the substrate has more components than the pattern.  The
+        # reaction's own embedding is such an embedding only if every component of the applied template side lies in
+        # a molecule of its own.  The fallback strategy returns the component-aware result whenever that is non-empty.
         import networkx as nx
         from synkit.Graph.ITS.its_decompose import its_decompose
         l, r = its_decompose(tpl)
         pat = l if d == "fwd" else r
-        if sub.count(".") + 1 > nx.number_connected_components(pat):
-            ctx.count("comp_skipped_host_has_more_components")
+        side = R.side_tables(a if d == "fwd" else b)
+        sg = nx.Graph()
+        sg.add_nodes_from(side[0])
+        sg.add_edges_from(tuple(e) for e in side[1])
+        mol_of = {n: k for k, c in enumerate(nx.connected_components(sg)) for n in c}
+        pcs = [set(c) for c in nx.connected_components(pat)]
+        homes = [{mol_of.get(n) for n in c} for c in pcs]
+        own_ok = all(len(h) == 1 for h in homes) and len({next(iter(h)) for h in homes}) == len(homes)
+        guard_ok = nx.number_connected_components(sg) <= len(pcs)
+        if s == "comp" and not (own_ok and guard_ok):
+            ctx.count("comp_skipped_own_embedding_not_component_respecting")
             return
+        if s == "bt" and not (own_ok and guard_ok):
+            probe = RC.run(sub, tpl, invert=(d == "bwd"), strategy="comp", flags=RC.flags_for(x["mode"]))
+            if "error" in probe or probe["n_maps"] > 0:
+                ctx.count("bt_skipped_component_result_nonempty_without_own_embedding")
+                return
+            ctx.count("bt_must_fall_back")
     c03._current[0] = wit
     import time
     t0 = time.time()
@@ -121,8 +139,8 @@ def run(ctx):
     rx = [x for x in RC.rxns() if RC.flags_for(x["mode"])]
     step = 5 if ctx.quick else 1
     for i, x in enumerate(rx):
-        if not ctx.mine(i) or (i // ctx.nshards) % step != ctx.seed % step:
-            continue
+        if not ctx.mine(i) or ((i // ctx.nshards) % step != ctx.seed % step and x["rid"] < 10000):
+            continue  # corpus reactions are sampled in the quick tier; the hand-written extras always run
         if ctx.out_of_time():
             ctx.count("truncated_by_budget")
             break
